@@ -89,7 +89,8 @@ Inductive handle :=
 | HValM (a : addr)         (* &ma.va *)
 | HValL (a : addr)         (* &la.va *)
 | HNode (r : nref)
-| HSlice (s : slice).      (* a []byte the caller holds *)
+| HSlice (s : slice)       (* a []byte the caller holds *)
+| HReader (a : addr).      (* an io.ReadSeeker handed out by AsLargeBytes *)
 
 Inductive acc :=
 | AKind | ALength | ALookupS (k : bytes) | ALookupI (i : Z) | AEntries | AItems
@@ -131,6 +132,9 @@ Inductive prim :=
 | PNewScalarNode (v : sval)            (* basicnode.NewInt … / datamodel.Null *)
 | PForeign (d : dm)                    (* a node of another implementation *)
 | PMatchSubset (n : handle) (from to : Z)   (* selector.Matcher{Slice{from,to}}.Match(n) *)
+| PLargeBytes (n : handle)             (* n.(LargeBytesNode).AsLargeBytes(): a reader the caller keeps *)
+| PReaderRead (r : handle) (k : option nat)      (* read up to k bytes (None: io.ReadAll) from a handed-out reader *)
+| PReaderSeek (r : handle) (off : Z) (wh : whence)   (* r.Seek(off, whence) *)
 | PCallerWrite (s : handle) (i : nat) (b : N).   (* the caller writes s[i] = b: excluded by the property *)
 
 (* quirks of the pinned tree + the (unobservable) growth policy of append *)
@@ -807,6 +811,27 @@ Definition prim_prog (p : prim) : mprog pout :=
   | PNewScalarNode v => let* r := sval_node v in Ret (POk (HNode r))
   | PForeign d => Ret (POk (HNode (RForeign d)))
   | PMatchSubset n from to => match n with HNode r => match_subset r from to | _ => Crash end
+  | PLargeBytes n =>
+      match n with
+      | HNode RNil => Crash
+      | HNode (RBytesP sl) => New (CRdr (RdBytes sl 0)) (fun x => Ret (POk (HReader x)))   (* bytes.NewReader(n) *)
+      | HNode (RStream src) =>
+          if cf_stream_shared cf then Ret (POk (HReader src))                 (* the node's one reader, every time *)
+          else New (CRdr (RdCursor src 0)) (fun x => Ret (POk (HReader x)))   (* a cursor of its own *)
+      | HNode _ => Ret (PErr EWrongKind)                                      (* not a LargeBytesNode *)
+      | _ => Crash
+      end
+  | PReaderRead r k =>
+      match r with
+      | HReader x => let* bs := rd_read rd_fuel x k in Ret (PAcc (XBytes bs None))
+      | _ => Crash
+      end
+  | PReaderSeek r off wh =>
+      match r with
+      | HReader x => let* z := rd_seekw rd_fuel x off wh in
+                     Ret (match z with Some p => PAcc (XLen p) | None => PErr EOther end)
+      | _ => Crash
+      end
   | PCallerWrite s i b =>
       match is_slice_handle s with
       | Some sl =>
@@ -855,6 +880,7 @@ Definition handle_eqb (a b : handle) : bool :=
   | HKeyAsm x, HKeyAsm y | HValM x, HValM y | HValL x, HValL y => addr_eqb x y
   | HNode r, HNode r' => nref_eqb r r'
   | HSlice s, HSlice s' => slice_eqb s s'
+  | HReader x, HReader y => addr_eqb x y
   | _, _ => false
   end.
 
@@ -864,14 +890,14 @@ Definition known_b (k : list handle) (h : handle) : bool :=
   match h with
   | HNode (RForeign _) | HNode RNull | HNode RNil => true
   | HNode (RBytesP s) => existsb (handle_eqb h) k || existsb (handle_eqb (HSlice s)) k
-  | HNode _ | HSlice _ => existsb (handle_eqb h) k
+  | HNode _ | HSlice _ | HReader _ => existsb (handle_eqb h) k
   | _ => true
   end.
 
 Definition add_known (k : list handle) (h : handle) : list handle :=
   match h with
   | HNode (RForeign _) | HNode RNull | HNode RNil => k
-  | HNode _ | HSlice _ => if existsb (handle_eqb h) k then k else h :: k
+  | HNode _ | HSlice _ | HReader _ => if existsb (handle_eqb h) k then k else h :: k
   | _ => k
   end.
 
@@ -890,7 +916,7 @@ Definition out_handles (o : pout) : list handle :=
 Definition returns_caps (p : prim) : bool :=
   match p with
   | PBuild _ | PRead _ _ | PNewSlice _ | PNewBytesNode _ | PNewStreamNode _ | PNewScalarNode _
-  | PForeign _ | PMatchSubset _ _ _ => true
+  | PForeign _ | PMatchSubset _ _ _ | PLargeBytes _ => true
   | _ => false
   end.
 
@@ -908,7 +934,7 @@ Definition prim_operands (p : prim) : list handle :=
   | PBeginMap h _ | PBeginList h _ | PAssembleEntry h _ | PAssembleKey h | PAssembleValue h
   | PAssign h _ | PFinish h | PBuild h | PReset h => [h]
   | PAssignBytes h s | PAssignNode h s => [h; s]
-  | PRead n _ | PMatchSubset n _ _ => [n]
+  | PRead n _ | PMatchSubset n _ _ | PLargeBytes n | PReaderRead n _ | PReaderSeek n _ _ => [n]
   | PNewBytesNode s | PNewStreamNode s | PCallerWrite s _ _ => [s]
   end.
 
